@@ -21,6 +21,7 @@ type Profile struct {
 	Hostile   int // percent of argument slots filled with hostile values
 	Ignore    [][]string
 	Obs       ObsSpec
+	Sample    bool // draw a fresh path universe per trace (sampledFamily)
 	NoInitCfg bool // do not start with init+identity
 	CfgVals   []string
 }
@@ -30,12 +31,25 @@ var famNest = []string{"d/e/x", "d/e.x", "d/f", "g", "d/e/y/z", "d-o", "d.c", "d
 var famOdd = []string{"a b/c d", "p+q", "x(1)", "é/ü", "a.b/c", "my file.txt", "d x", "d x/y", "_u/v_", "日本/語.txt", "a[1]", "q*", "w?"}
 var famExt = []string{"src/a", "src/b", "src.c", "src-old", "src0", "src_x", "src2/c", "srcs", "src/sub/d", "src/sub.e"}
 var famIgn = []string{"f", "build/o", "sub/build/o", "rebuild/o", "a.exe", "a.exe.txt", "x.goit/f", "sub/.goit/f", ".goitx", "b.exe/z", "sub/c.exe"}
-var defaultBranches = []string{"main", "a", "ab", "b", "a-b", "a.b", "Z", "dev", "x_1"}
+var defaultBranches = []string{"main", "a", "ab", "b", "a-b", "a.b", "Z", "dev", "x_1", ".wip", "HEAD", "release"}
+
+// sampledFamily draws a path universe around one directory name D: files beneath it, siblings whose names extend D with bytes
+// sorting before and after '/', a nested directory with the same tail, dot-names next to the metadata directory, an odd name.
+func sampledFamily(rng *rand.Rand) []string {
+	d := []string{"lib", "d", "src", "test", "pkg"}[rng.Intn(5)]
+	all := []string{d + "/a", d + "/b", d + "/sub/c", d + ".c", d + "-old", d + "0", d + "_x", d + "s/y", d + "2.go", "pkg2/" + d + "/a", "pkg2/" + d + "/b", "top.txt",
+		".goitignore", ".goitx", ".hidden/f", "a b/c d", "é/ü", "x(1)", "z"}
+	rng.Shuffle(len(all), func(i, j int) { all[i], all[j] = all[j], all[i] })
+	n := 7 + rng.Intn(5)
+	out := append([]string{d + "/a", d + "/b"}, all[:n]...)
+	return out
+}
+
 var defaultMsgs = []string{"raise coverage from 80% to 100%d of %s", "quote\nparent @ANC1@\ntree @TREE@", "revert\n\nparent @HEAD@", "first", "fix: thing", "a\tb", "two\nlines here now", "subject\n\nbody: with colon\nmore words in line", " padded ", "héllo wörld", "x: y: z", "m", "line one\nline two"}
 
 func weightsDefault() map[string]int {
 	return map[string]int{"write": 14, "remove": 4, "rmdir": 2, "touch": 2, "rewrite": 2, "add": 14, "rm": 4, "commit": 9, "restore": 4, "restores": 4,
-		"reset": 5, "branch": 3, "branchd": 2, "branchr": 2, "switch": 3, "switchc": 2, "config": 2, "updateref": 2, "settz": 1, "ignore": 0, "raw": 0, "mkdir": 1, "writetree": 1}
+		"reset": 5, "branch": 3, "branchd": 2, "branchr": 2, "switch": 3, "switchc": 2, "config": 2, "updateref": 2, "settz": 1, "ignore": 0, "raw": 0, "mkdir": 1, "writetree": 1, "cpdir": 1}
 }
 
 func pickW(rng *rand.Rand, w map[string]int) string {
@@ -181,13 +195,26 @@ func (p *Profile) genEvent(rng *rand.Rand, tr *Trace) M {
 	switch pickW(rng, p.Weights) {
 	case "write":
 		path := p.Paths[rng.Intn(len(p.Paths))]
+		if len(tracked) > 0 && rng.Intn(100) < 35 {
+			path = tracked[rng.Intn(len(tracked))] // edit a tracked file
+		}
 		// avoid file/dir conflicts on disk most of the time
 		for _, d := range dirs {
 			if d == path {
 				path = path + "_f"
 			}
 		}
-		return M{"ev": "write", "p": EscS(path), "c": tr.AddContent(content())}
+		if path == ".goitignore" {
+			// a .goitignore is made of directory entries and *.ext entries (C17's domain), never of arbitrary bytes
+			lines := []string{"build/", "*.exe", "*.tar.gz", "tmp/", "*.o", "a(b/", "*.c++"}
+			n := 1 + rng.Intn(3)
+			txt := ""
+			for i := 0; i < n; i++ {
+				txt += lines[rng.Intn(len(lines))] + "\n"
+			}
+			return M{"ev": "write", "p": EscS(path), "c": tr.AddContent([]byte(txt))}
+		}
+		return M{"ev": "write", "p": EscS(path), "c": tr.AddContent(content()), "old": rng.Intn(3) == 0}
 	case "rewrite":
 		if len(wtFiles) == 0 {
 			return nil
@@ -211,13 +238,23 @@ func (p *Profile) genEvent(rng *rand.Rand, tr *Trace) M {
 		return M{"ev": "rmdir", "p": EscS(dirs[rng.Intn(len(dirs))])}
 	case "mkdir":
 		return M{"ev": "mkdir", "p": EscS(fmt.Sprintf("emptyd%d", rng.Intn(3)))}
+	case "cpdir":
+		if len(dirs) == 0 {
+			return nil
+		}
+		from := dirs[rng.Intn(len(dirs))]
+		return M{"ev": "cpdir", "p": EscS(from), "to": EscS(from + []string{"-copy", "2", ".bak"}[rng.Intn(3)])}
 	case "dfswap":
 		// a directory becomes a file, or a file becomes a directory with one file in it
 		if len(dirs) > 0 && rng.Intn(2) == 0 {
 			return M{"ev": "dfswap", "p": EscS(dirs[rng.Intn(len(dirs))]), "c": tr.AddContent(content()), "todir": false}
 		}
 		if len(wtFiles) > 0 {
-			return M{"ev": "dfswap", "p": EscS(wtFiles[rng.Intn(len(wtFiles))]), "c": tr.AddContent(content()), "todir": true}
+			f := wtFiles[rng.Intn(len(wtFiles))]
+			if f == ".goitignore" {
+				return nil // the ignore file stays a file
+			}
+			return M{"ev": "dfswap", "p": EscS(f), "c": tr.AddContent(content()), "todir": true}
 		}
 		return nil
 	case "touch":
@@ -229,12 +266,27 @@ func (p *Profile) genEvent(rng *rand.Rand, tr *Trace) M {
 		if rng.Intn(6) == 0 {
 			return M{"ev": "add", "paths": []any{"."}}
 		}
+		// a directory above a tracked file that is modified in the working tree but not yet staged
+		if mod := modifiedTracked(tr.R.T, st); len(mod) > 0 && rng.Intn(100) < 30 {
+			f := mod[rng.Intn(len(mod))]
+			if parts := strings.Split(f, "/"); len(parts) > 1 {
+				return M{"ev": "add", "paths": []any{EscS(strings.Join(parts[:1+rng.Intn(len(parts)-1)], "/"))}}
+			}
+		}
 		return M{"ev": "add", "paths": pathArgs(allKnown, true)}
 	case "rm":
 		return M{"ev": "rm", "paths": pathArgs(tracked, true)}
 	case "restore":
 		return M{"ev": "restore", "paths": pathArgs(tracked, true)}
 	case "restores":
+		// prefer arguments where the staging area differs from the HEAD snapshot (the path itself or a directory above it)
+		if diff := stagedDiffPaths(tr.R.T, st); len(diff) > 0 && rng.Intn(2) == 0 {
+			p := diff[rng.Intn(len(diff))]
+			if parts := strings.Split(p, "/"); len(parts) > 1 && rng.Intn(2) == 0 {
+				p = strings.Join(parts[:1+rng.Intn(len(parts)-1)], "/")
+			}
+			return M{"ev": "restores", "paths": []any{EscS(p)}}
+		}
 		return M{"ev": "restores", "paths": pathArgs(allKnown, true)}
 	case "commit":
 		msg := p.Msgs[rng.Intn(len(p.Msgs))]
@@ -402,6 +454,9 @@ func initEvents() []M {
 
 // runRandom produces one random trace.
 func runRandom(goit, base string, T *Tables, p *Profile, rng *rand.Rand, label string) *Trace {
+	if p.Sample {
+		p.Paths = sampledFamily(rng)
+	}
 	r := NewRunner(goit, base, T)
 	if len(p.TZs) > 0 {
 		r.TZ = p.TZs[rng.Intn(len(p.TZs))]
@@ -451,4 +506,75 @@ func repoUsable(st M) bool {
 		return false
 	}
 	return true
+}
+
+// headSnapshot flattens the tree of HEAD's commit (path -> blob id) through the projector's decoded objects.
+func headSnapshot(T *Tables, st M) map[string]string {
+	out := map[string]string{}
+	h := headId(st)
+	o := objOf(T, st, h)
+	if o == nil || o["k"] != "commit" {
+		return out
+	}
+	var walk func(tid, pfx string, depth int)
+	walk = func(tid, pfx string, depth int) {
+		t := objOf(T, st, tid)
+		if t == nil || t["k"] != "tree" || depth > 20 {
+			return
+		}
+		for _, e := range t["ents"].([]any) {
+			en := e.(M)
+			name := pfx + string(Unesc(en["n"].(string)))
+			if en["m"] == "040000" {
+				walk(en["id"].(string), name+"/", depth+1)
+			} else {
+				out[name] = en["id"].(string)
+			}
+		}
+	}
+	walk(o["tree"].(string), "", 0)
+	return out
+}
+
+// stagedDiffPaths: paths whose staged entry differs from the HEAD snapshot (new, modified or deleted).
+func stagedDiffPaths(T *Tables, st M) []string {
+	head := headSnapshot(T, st)
+	idx := map[string]string{}
+	for _, e := range st["idx"].(M)["ents"].([]any) {
+		idx[string(Unesc(e.(M)["p"].(string)))] = e.(M)["id"].(string)
+	}
+	var out []string
+	for p, id := range idx {
+		if head[p] != id {
+			out = append(out, p)
+		}
+	}
+	for p := range head {
+		if _, ok := idx[p]; !ok {
+			out = append(out, p)
+		}
+	}
+	sort.Strings(out)
+	return out
+}
+
+// modifiedTracked: tracked files whose working-tree bytes differ from their staged blob.
+func modifiedTracked(T *Tables, st M) []string {
+	var out []string
+	wt := st["wt"].(M)
+	for _, e := range st["idx"].(M)["ents"].([]any) {
+		p := e.(M)["p"].(string)
+		c, ok := wt[p]
+		if !ok {
+			continue
+		}
+		T.mu.Lock()
+		ci := T.Contents[c.(string)]
+		T.mu.Unlock()
+		if ci != nil && ci["blobid"] != e.(M)["id"] {
+			out = append(out, string(Unesc(p)))
+		}
+	}
+	sort.Strings(out)
+	return out
 }
